@@ -12,10 +12,18 @@
 //!   case <name>
 //!   await <ready|value|ref> <awaiters> <polls> <sched>   party 0 = producer (completes the async
 //!        derived's future and polls its task), parties 1.. = awaiters polling by hand
+//!   dnotify <k> <sched>                                  party 0 = the derived's thread (its task runs `notify_subs`),
+//!        parties 1..k call `derived.notify()`; afterwards party 0 writes the derived's source: it must reload
+//!   dwrite <ready|value|ref> <polls> <sched>             party 0 is inside `derived.update(|v| ..)` (value write-locked),
+//!        party 1 polls the loaded derived by hand
 //!   chan <polls> <m1,m2,..> <sched>                      party 0 = receiver task (poll budget),
 //!        parties 1.. = senders doing m_i notifies on handles of the same channel
 //!   memo <c|d> <prog>/<prog>[/<prog>] <sched>            memo = sig*10, initially clean|dirty;
 //!        prog = comma separated ops: g (memo.get) s<v> (sig.set v) h (hold memo.read()) d (drop it)
+//!   graph <spec> <c|d> <gates> <prog>/<prog> <sched>     a DAG of memos over one signal (initially 1):
+//!        spec = comma separated memo definitions x<c><src> (src*c) a<c><src> (src+c) d<c><src> (src/c)
+//!        p<src><src> (sum, read in that order), <src> = s | m<i>; gates = m (the memo:* points incl.
+//!        memo:cleared / memo:unlocked) and/or l (sources:clearing); needs hooks/yield_points_v2.patch; prog ops g<i> (memo i .get) s<v> (set)
 //!   sig <prog>/<prog>[/<prog>] <sched>                   plain signal (initially 1), no hooks: prog ops
 //!        r (get) s<v> (set) w<v> .. u (one `sig.update(|n| { *n = v; <the ops up to u> })`: the closure runs
 //!        with the value write-locked, as every update does)
@@ -72,6 +80,8 @@ mod real {
         last: Vec<&'static str>,
         trace: Vec<Vec<&'static str>>,
         tids: Vec<Option<u32>>,
+        /// the party has switched its gates off (sequential post-phase on its own thread)
+        open: Vec<bool>,
         released: bool,
     }
 
@@ -116,7 +126,7 @@ mod real {
     fn hook(name: &'static str) {
         let me = ME.with(|m| m.borrow().clone());
         if let Some((sh, id)) = me {
-            if sh.gates[id].iter().any(|g| *g == name) {
+            if sh.gates[id].iter().any(|g| *g == name) && !lock(&sh).open[id] {
                 sh.yield_at(id, name);
             }
         }
@@ -125,6 +135,14 @@ mod real {
     fn install_hook() {
         static ONCE: Once = Once::new();
         ONCE.call_once(|| set_yield_hook(Some(Arc::new(hook))));
+    }
+
+    /// the calling party runs the rest of its program without being pre-empted at hook points
+    fn open_gates() {
+        let me = ME.with(|m| m.borrow().clone());
+        if let Some((sh, id)) = me {
+            lock(&sh).open[id] = true;
+        }
     }
 
     /// harness-level yield point inside a party program
@@ -188,6 +206,7 @@ mod real {
                     last: vec![""; n],
                     trace: vec![vec![]; n],
                     tids: vec![None; n],
+                    open: vec![false; n],
                     released: false,
                 }),
                 cv: Condvar::new(),
@@ -608,6 +627,242 @@ mod real {
         format!("{out} ## {verdict}")
     }
 
+    // ------------------------------------------------------------ scenario: dnotify / dwrite
+
+    const NOTIFY_GATES: &[&str] = &["notify_subs:enter", "notify_subs:stored", "notify_subs:drained"];
+
+    /// party 0 = the async derived's own thread (completes the fetcher, polls the task: `notify_subs`),
+    /// parties 1..=k call `derived.notify()` (the public `Notify` impl = `notify_subs`) once each.
+    /// When everybody is done party 0 writes the derived's source signal and runs its executor:
+    /// the derived must load again (its state must not be stuck at `Notifying`).
+    fn run_dnotify(k: usize, sched: &[usize]) -> String {
+        use reactive_graph::traits::Notify;
+        let mut eng = Engine::new((0..=k).map(|_| NOTIFY_GATES.to_vec()).collect());
+        let slot: Arc<Mutex<Option<ArcAsyncDerived<u32>>>> = Arc::new(Mutex::new(None));
+        let calls = Arc::new(AtomicUsize::new(0));
+        let post: Arc<Mutex<Option<String>>> = Arc::new(Mutex::new(None));
+        {
+            let slot = slot.clone();
+            let calls = calls.clone();
+            let post = post.clone();
+            let sh = eng.sh.clone();
+            eng.spawn(0, move || {
+                sched::install();
+                let owner = Owner::new();
+                owner.set();
+                let src = ArcRwSignal::new(1u32);
+                let (tx, rx) = oneshot::channel::<u32>();
+                let rx = Arc::new(Mutex::new(Some(rx)));
+                let d = {
+                    let src = src.clone();
+                    let calls = calls.clone();
+                    ArcAsyncDerived::new(move || {
+                        calls.fetch_add(1, SeqCst);
+                        let v = src.get();
+                        let rx = rx.lock().unwrap().take();
+                        async move {
+                            match rx {
+                                Some(rx) => rx.await.unwrap_or(0),
+                                None => v,
+                            }
+                        }
+                    })
+                };
+                sched::run_until_idle(16);
+                *slot.lock().unwrap() = Some(d.clone());
+                if yield_here("h:start") {
+                    return;
+                }
+                let _ = tx.send(7);
+                loop {
+                    sched::run_until_idle(16);
+                    if sh.seen(0, "notify_subs:drained") {
+                        break;
+                    }
+                    if yield_here("h:idle") {
+                        return;
+                    }
+                }
+                // granted only when every notifier has returned
+                if yield_here("h:post") {
+                    return;
+                }
+                open_gates();
+                src.set(5);
+                sched::run_until_idle(64);
+                let v = catch_unwind(AssertUnwindSafe(|| d.get_untracked())).ok().flatten();
+                *post.lock().unwrap() = Some(v.map(|v| v.to_string()).unwrap_or("none".into()));
+                drop(owner);
+            });
+        }
+        let done: Vec<Arc<AtomicBool>> = (0..k).map(|_| Arc::new(AtomicBool::new(false))).collect();
+        for i in 0..k {
+            let slot = slot.clone();
+            let done = done[i].clone();
+            eng.spawn(1 + i, move || {
+                if yield_here("h:start") {
+                    return;
+                }
+                let d = slot.lock().unwrap().clone().expect("derived");
+                d.notify();
+                done.store(true, SeqCst);
+            });
+        }
+        eng.wait_all_started();
+        let done2 = done.clone();
+        let skip = move |e: &Engine, t: usize| -> bool {
+            t == 0 && e.last(0) == "h:post" && !done2.iter().all(|d| d.load(SeqCst))
+        };
+        eng.run(sched, &skip);
+        let stuck = eng.hang || (0..=k).any(|t| !eng.finished(t));
+        let post = post.lock().unwrap().clone();
+        let c = calls.load(SeqCst);
+        eng.release();
+        let out = format!("calls={c} fin={}", post.clone().unwrap_or("-".into()));
+        let verdict = if stuck || post.is_none() {
+            "fail hang"
+        } else if c < 2 {
+            "fail notifying-stuck"
+        } else {
+            "ok"
+        };
+        format!("{out} ## {verdict}")
+    }
+
+    /// party 0 = a thread inside `derived.update(|v| ..)` (the closure runs with the value's async lock
+    /// write-held, as every write through the `Write` impl does); party 1 = an awaiter polling by hand.
+    /// The derived is already loaded (`loading = false`).
+    fn run_dwrite(kind: usize, polls: usize, sched: &[usize]) -> String {
+        use reactive_graph::traits::Update;
+        let mut eng = Engine::new(vec![vec![], AWAIT_GATES[kind].to_vec()]);
+        let slot: Arc<Mutex<Option<ArcAsyncDerived<u32>>>> = Arc::new(Mutex::new(None));
+        let wdone = Arc::new(AtomicBool::new(false));
+        let log = Arc::new(Mutex::new(AwaiterLog {
+            trace: String::new(),
+            woken: Arc::new(AtomicBool::new(false)),
+            parked: false,
+            done: false,
+        }));
+        {
+            let slot = slot.clone();
+            let wdone = wdone.clone();
+            eng.spawn(0, move || {
+                sched::install();
+                let owner = Owner::new();
+                owner.set();
+                let d = ArcAsyncDerived::new(move || async move { 7u32 });
+                sched::run_until_idle(32);
+                *slot.lock().unwrap() = Some(d.clone());
+                if yield_here("h:start") {
+                    return;
+                }
+                let mut released = false;
+                d.update(|v| {
+                    *v = Some(9);
+                    released = yield_here("h:in-update");
+                });
+                if released {
+                    return;
+                }
+                wdone.store(true, SeqCst);
+                drop(owner);
+            });
+        }
+        {
+            let slot = slot.clone();
+            let log = log.clone();
+            eng.spawn(1, move || {
+                if yield_here("h:start") {
+                    return;
+                }
+                let d = slot.lock().unwrap().clone().expect("derived");
+                let (waker, flag) = sched::flag_waker();
+                log.lock().unwrap().woken = flag.clone();
+                let mut cx = Context::from_waker(&waker);
+                let mut fut_v: Pin<Box<dyn Future<Output = u32>>> = Box::pin(std::future::IntoFuture::into_future(d.clone()));
+                let mut fut_r: Pin<Box<dyn Future<Output = ()>>> = Box::pin(d.ready());
+                let mut left = polls;
+                while left > 0 {
+                    left -= 1;
+                    let r: Option<String> = match kind {
+                        0 => match fut_r.as_mut().poll(&mut cx) {
+                            Poll::Ready(()) => Some("R".into()),
+                            Poll::Pending => None,
+                        },
+                        1 => match fut_v.as_mut().poll(&mut cx) {
+                            Poll::Ready(v) => Some(format!("R{v}")),
+                            Poll::Pending => None,
+                        },
+                        _ => {
+                            let mut fut = Box::pin(d.by_ref());
+                            match fut.as_mut().poll(&mut cx) {
+                                Poll::Ready(g) => Some(format!("R{}", *g)),
+                                Poll::Pending => None,
+                            }
+                        }
+                    };
+                    match r {
+                        Some(s) => {
+                            let mut l = log.lock().unwrap();
+                            l.trace.push_str(&s);
+                            l.done = true;
+                            return;
+                        }
+                        None => {
+                            {
+                                let mut l = log.lock().unwrap();
+                                l.trace.push('P');
+                                l.parked = true;
+                            }
+                            if yield_here("h:park") {
+                                return;
+                            }
+                            flag.store(false, SeqCst);
+                            log.lock().unwrap().parked = false;
+                        }
+                    }
+                }
+                log.lock().unwrap().done = true;
+            });
+        }
+        eng.wait_all_started();
+        let log2 = log.clone();
+        let skip = move |e: &Engine, t: usize| -> bool {
+            t == 1 && e.last(1) == "h:park" && !log2.lock().unwrap().woken.load(SeqCst)
+        };
+        eng.run(sched, &skip);
+        let w = if wdone.load(SeqCst) { "done" } else { "wait" };
+        let l = log.lock().unwrap();
+        let mut lost = false;
+        let mut stuck = eng.hang || w != "done";
+        let st = if l.done && l.trace.contains('R') {
+            "ready"
+        } else if l.done {
+            "gaveup"
+        } else if l.parked && eng.last(1) == "h:park" {
+            if l.woken.load(SeqCst) {
+                "woken"
+            } else {
+                lost = w == "done";
+                "parked"
+            }
+        } else {
+            stuck = true;
+            "mid"
+        };
+        let out = format!("w={w} a1={}/{}", if l.trace.is_empty() { "-" } else { &l.trace }, st);
+        drop(l);
+        eng.release();
+        let verdict = if stuck {
+            "fail hang"
+        } else if lost {
+            "fail lost-wakeup-writer"
+        } else {
+            "ok"
+        };
+        format!("{out} ## {verdict}")
+    }
+
     // ------------------------------------------------------------ scenario: chan
 
     fn run_chan(polls: usize, notifies: &[usize], sched: &[usize]) -> String {
@@ -892,6 +1147,254 @@ mod real {
         }
     }
 
+    // ------------------------------------------------------------ scenario: graph
+
+    #[derive(Clone, Copy, PartialEq, Debug)]
+    enum GSrc {
+        Sig,
+        Memo(usize),
+    }
+    #[derive(Clone, Copy, PartialEq, Debug)]
+    enum GFn {
+        Mul(u64),
+        Add(u64),
+        Div(u64),
+        Plus,
+    }
+    #[derive(Clone, Debug)]
+    struct GDef {
+        f: GFn,
+        reads: Vec<GSrc>,
+    }
+    #[derive(Clone, Copy, PartialEq, Debug)]
+    enum GOp {
+        Get(usize),
+        Set(u64),
+    }
+
+    /// `x<c><src>` = src*c, `a<c><src>` = src+c, `d<c><src>` = src/c, `p<src><src>` = first + second
+    /// (read in that order); `<src>` = `s` (the signal) or `m<i>` (an earlier memo, one digit)
+    fn parse_graph(spec: &str) -> Option<Vec<GDef>> {
+        let mut defs: Vec<GDef> = vec![];
+        for tok in spec.split(',') {
+            let cs: Vec<char> = tok.chars().collect();
+            let mut i = 1;
+            let src = |i: &mut usize, n: usize| -> Option<GSrc> {
+                match cs.get(*i)? {
+                    's' => {
+                        *i += 1;
+                        Some(GSrc::Sig)
+                    }
+                    'm' => {
+                        let d = cs.get(*i + 1)?.to_digit(10)? as usize;
+                        *i += 2;
+                        (d < n).then_some(GSrc::Memo(d))
+                    }
+                    _ => None,
+                }
+            };
+            let n = defs.len();
+            let def = match cs.first()? {
+                'p' => {
+                    let a = src(&mut i, n)?;
+                    let b = src(&mut i, n)?;
+                    GDef { f: GFn::Plus, reads: vec![a, b] }
+                }
+                k @ ('x' | 'a' | 'd') => {
+                    let mut c: u64 = 0;
+                    let mut any = false;
+                    while let Some(d) = cs.get(i).and_then(|c| c.to_digit(10)) {
+                        c = c * 10 + d as u64;
+                        i += 1;
+                        any = true;
+                    }
+                    if !any || c >= 1000 || (*k == 'd' && c == 0) {
+                        return None;
+                    }
+                    let a = src(&mut i, n)?;
+                    GDef { f: match k { 'x' => GFn::Mul(c), 'a' => GFn::Add(c), _ => GFn::Div(c) }, reads: vec![a] }
+                }
+                _ => return None,
+            };
+            if i != cs.len() {
+                return None;
+            }
+            defs.push(def);
+        }
+        (!defs.is_empty() && defs.len() <= 5).then_some(defs)
+    }
+
+    fn parse_gprog(s: &str, n: usize) -> Option<Vec<GOp>> {
+        if s == "-" {
+            return Some(vec![]);
+        }
+        s.split(',')
+            .map(|o| {
+                let (c, v) = o.split_at(1.min(o.len()));
+                let v: u64 = v.parse().ok()?;
+                match c {
+                    "g" => (v < n as u64).then_some(GOp::Get(v as usize)),
+                    "s" => (v < 1000).then_some(GOp::Set(v)),
+                    _ => None,
+                }
+            })
+            .collect()
+    }
+
+    fn apply_fn(f: GFn, a: &[u64]) -> u64 {
+        match f {
+            GFn::Mul(c) => a[0] * c,
+            GFn::Add(c) => a[0] + c,
+            GFn::Div(c) => a[0] / c,
+            GFn::Plus => a[0] + a[1],
+        }
+    }
+
+    /// from-scratch values of all memos for a signal value (the oracle's reference)
+    fn scratch(defs: &[GDef], sig: u64) -> Vec<u64> {
+        let mut vals: Vec<u64> = vec![];
+        for d in defs {
+            let a: Vec<u64> = d.reads.iter().map(|s| match s { GSrc::Sig => sig, GSrc::Memo(j) => vals[*j] }).collect();
+            vals.push(apply_fn(d.f, &a));
+        }
+        vals
+    }
+
+    /// a DAG of `ArcMemo`s over one `ArcRwSignal` (initially 1); parties get memos / set the signal
+    fn run_graph(defs: &[GDef], clean: bool, gates: &str, progs: &[Vec<GOp>], sched: &[usize]) -> String {
+        let n = progs.len();
+        let mut g: Vec<&'static str> = vec![];
+        if gates.contains('m') {
+            g.extend_from_slice(MEMO_GATES);
+            // v2: a thread that releases a memo's lock parks right after the release, so that a thread
+            // blocked on that lock runs to its next yield point alone (deterministic replay)
+            g.push("memo:cleared");
+            g.push("memo:unlocked");
+        }
+        if gates.contains('l') {
+            g.push("sources:clearing");
+        }
+        let mut eng = Engine::new((0..n).map(|_| g.clone()).collect());
+        let sig = ArcRwSignal::new(1u64);
+        let mut memos: Vec<ArcMemo<u64>> = vec![];
+        for d in defs {
+            let srcs: Vec<(GSrc, Option<ArcMemo<u64>>)> = d
+                .reads
+                .iter()
+                .map(|s| (*s, match s { GSrc::Memo(j) => Some(memos[*j].clone()), GSrc::Sig => None }))
+                .collect();
+            let sig = sig.clone();
+            let f = d.f;
+            memos.push(ArcMemo::new(move |_| {
+                let a: Vec<u64> = srcs.iter().map(|(_, m)| match m { Some(m) => m.get(), None => sig.get() }).collect();
+                apply_fn(f, &a)
+            }));
+        }
+        if clean {
+            for m in &memos {
+                let _ = m.get_untracked();
+            }
+        }
+        let results: Vec<Arc<Mutex<Vec<String>>>> = (0..n).map(|_| Arc::new(Mutex::new(vec![]))).collect();
+        for (i, prog) in progs.iter().enumerate() {
+            let prog = prog.clone();
+            let res = results[i].clone();
+            let sig = sig.clone();
+            let memos = memos.clone();
+            eng.spawn(i, move || {
+                for (k, op) in prog.iter().enumerate() {
+                    if yield_here(if k == 0 { "h:start" } else { "h:next" }) {
+                        return;
+                    }
+                    let r = match *op {
+                        GOp::Get(j) => match catch_unwind(AssertUnwindSafe(|| memos[j].get_untracked())) {
+                            Ok(v) => v.to_string(),
+                            Err(_) => "panic".into(),
+                        },
+                        GOp::Set(v) => match catch_unwind(AssertUnwindSafe(|| sig.set(v))) {
+                            Ok(()) => ".".into(),
+                            Err(_) => "panic".into(),
+                        },
+                    };
+                    res.lock().unwrap().push(r);
+                }
+                if prog.is_empty() {
+                    yield_here("h:start");
+                }
+            });
+        }
+        eng.wait_all_started();
+        eng.run(sched, &|_, _| false);
+        let mut out = String::new();
+        let mut dead = eng.hang;
+        let mut panicked = false;
+        let mut bad = false;
+        let mut hist: Vec<Vec<u64>> = vec![scratch(defs, 1)];
+        for p in progs {
+            for o in p {
+                if let GOp::Set(v) = o {
+                    hist.push(scratch(defs, *v));
+                }
+            }
+        }
+        for i in 0..n {
+            let r = results[i].lock().unwrap();
+            let mut parts: Vec<String> = r.clone();
+            for _ in r.len()..progs[i].len() {
+                parts.push("?".into());
+            }
+            if !eng.finished(i) {
+                dead = true;
+            }
+            for (k, s) in r.iter().enumerate() {
+                if s == "panic" {
+                    panicked = true
+                } else if let GOp::Get(j) = progs[i][k] {
+                    let v: u64 = s.parse().unwrap_or(u64::MAX);
+                    if !hist.iter().any(|h| h[j] == v) {
+                        bad = true
+                    }
+                }
+            }
+            out.push_str(&format!("p{}={} ", i, if parts.is_empty() { "-".into() } else { parts.join(",") }));
+        }
+        eng.release();
+        let mut stale = false;
+        if dead {
+            out.push_str("fin=-");
+        } else {
+            // every operation has returned: read all memos again, in index order
+            let s = sig.get_untracked();
+            let want = scratch(defs, s);
+            let mut fin: Vec<String> = vec![];
+            for (j, m) in memos.iter().enumerate() {
+                match catch_unwind(AssertUnwindSafe(|| m.get_untracked())) {
+                    Ok(v) => {
+                        stale |= v != want[j];
+                        fin.push(v.to_string())
+                    }
+                    Err(_) => {
+                        panicked = true;
+                        fin.push("panic".into())
+                    }
+                }
+            }
+            out.push_str(&format!("fin={}:{s}", fin.join(",")));
+        }
+        let verdict = if dead {
+            "fail memo-deadlock"
+        } else if panicked {
+            "fail memo-read-panic"
+        } else if stale {
+            "fail memo-stale"
+        } else if bad {
+            "fail memo-bad-value"
+        } else {
+            "ok"
+        };
+        format!("{out} ## {verdict}")
+    }
+
     // ------------------------------------------------------------ scenario: sig
 
     #[derive(Clone, Copy, PartialEq, Debug)]
@@ -1126,6 +1629,26 @@ mod real {
                 }
                 run_await(kind, n_aw, polls, &s)
             }
+            ["dnotify", k, s] => {
+                let (Ok(k), Some(s)) = (k.parse::<usize>(), parse_sched(s)) else { return "bad-op".into() };
+                if k == 0 || k > 3 {
+                    return "bad-op".into();
+                }
+                run_dnotify(k, &s)
+            }
+            ["dwrite", kind, polls, s] => {
+                let kind = match *kind {
+                    "ready" => 0,
+                    "value" => 1,
+                    "ref" => 2,
+                    _ => return "bad-op".into(),
+                };
+                let (Ok(polls), Some(s)) = (polls.parse::<usize>(), parse_sched(s)) else { return "bad-op".into() };
+                if polls == 0 || polls > 4 {
+                    return "bad-op".into();
+                }
+                run_dwrite(kind, polls, &s)
+            }
             ["chan", polls, ms, s] => {
                 let ms: Option<Vec<usize>> =
                     if *ms == "-" { Some(vec![]) } else { ms.split(',').map(|m| m.parse().ok()).collect() };
@@ -1149,6 +1672,26 @@ mod real {
                     return "bad-op".into();
                 }
                 run_memo(clean, &progs, &s)
+            }
+            ["graph", spec, init, gates, progs, s] => {
+                let clean = match *init {
+                    "c" => true,
+                    "d" => false,
+                    _ => return "bad-op".into(),
+                };
+                let Some(defs) = parse_graph(spec) else { return "bad-op".into() };
+                if gates.is_empty() || !gates.chars().all(|c| c == 'm' || c == 'l' || c == '-') {
+                    return "bad-op".into();
+                }
+                let progs: Option<Vec<Vec<GOp>>> = progs.split('/').map(|p| parse_gprog(p, defs.len())).collect();
+                let (Some(progs), Some(s)) = (progs, parse_sched(s)) else { return "bad-op".into() };
+                if progs.is_empty() || progs.len() > 3 || progs.iter().any(|p| p.len() > 4) {
+                    return "bad-op".into();
+                }
+                if !cfg!(has_yield_hooks_v2) {
+                    return "no-hooks-v2 (reactive_graph lacks hooks/yield_points_v2.patch)".into();
+                }
+                run_graph(&defs, clean, gates, &progs, &s)
             }
             ["sig", progs, s] => {
                 let progs: Option<Vec<Vec<SOp>>> = progs.split('/').map(parse_sprog).collect();
@@ -1284,6 +1827,53 @@ fn gen(seed: u64, n: usize, path: &str, tier: &str) -> std::io::Result<()> {
     ] {
         for s in all_interleavings(&counts) {
             emit(&mut f, "sig2", format!("sig {progs} {s}"))?;
+        }
+    }
+    // concurrent notify_subs on one async derived; awaiting a loaded derived while it is written
+    for s in all_interleavings(&[5, 4]) {
+        emit(&mut f, "dnotify", format!("dnotify 1 {s}"))?;
+    }
+    for _ in 0..(if tier == "thorough" { 3000 } else { 250 }) {
+        let s = random_sched(&mut r, &[5, 4, 4]);
+        emit(&mut f, "dnotify", format!("dnotify 2 {s}"))?;
+    }
+    for kind in ["ready", "value", "ref"] {
+        for s in all_interleavings(&[2, 3]) {
+            emit(&mut f, "dwrite", format!("dwrite {kind} 2 {s}"))?;
+        }
+    }
+    // memo graphs (Check state, several sources, mark propagation): random schedules over fixed shapes
+    {
+        let l = "ml";
+        let shapes: [(&str, &str, &[&str], [usize; 2]); 12] = [
+            // the diamond of seed r2-3: zero = s*0, plus1 = s+1, sum = zero + plus1
+            ("x0s,a1s,pm0m1", "m", &["s2,g2/g1", "g2/s2,g1", "s2,g2/g2", "s2,g2/s3,g1"], [26, 14]),
+            ("x0s,a1s,pm0m1", l, &["s2,g2/g1", "s2,g2/s3"], [34, 14]),
+            // an unchanged intermediate read first, its own source second
+            ("a0s,d100m0,pm1m0", "m", &["s2,g2/g0", "s2,g2/s3,g2", "s2,g2/g1"], [26, 12]),
+            ("a0s,d100m0,pm1m0", l, &["s2,g2/s3", "s2,g2/g0"], [34, 12]),
+            // chains
+            ("a1s,a1m0", "m", &["s2,g1/g0", "s2,g1/s3", "g1/s2,g1"], [14, 12]),
+            ("a1s,a1m0", l, &["s2,g1/s3", "s2,g1/g0", "s2,g1/s3,g1"], [18, 14]),
+            ("a1s,x2m0,a1m1", "m", &["s2,g2/g1", "s2,g2/s3,g0"], [22, 14]),
+            ("a1s,x2m0,a1m1", l, &["s2,g2/s3"], [30, 8]),
+            // two memos over the signal, a sum over both and a reader on top
+            ("a1s,a2s,pm0m1,x3m2", "m", &["s2,g3/g2", "s2,g3/s5,g1"], [40, 20]),
+            ("d2s,d3s,pm0m1", "m", &["s6,g2/s7,g2", "s4,g2/g1"], [26, 16]),
+            ("d2s,pm0s", "m", &["s2,g1/s3,g1", "s3,g1/g0"], [16, 14]),
+            ("d2s,pm0s", l, &["s2,g1/s3", "s3,g1/s4,g1"], [22, 16]),
+        ];
+        // the whole scenario needs hooks/yield_points_v2.patch
+        let per = if !cfg!(has_yield_hooks_v2) { 0 } else if tier == "thorough" { 400 } else { 40 };
+        for (spec, gates, progs, counts) in shapes {
+            for pr in progs {
+                for init in ["c", "d"] {
+                    for _ in 0..(if init == "c" { per } else { per / 4 }) {
+                        let sc = random_sched(&mut r, &counts);
+                        emit(&mut f, "graph", format!("graph {spec} {init} {gates} {pr} {sc}"))?;
+                    }
+                }
+            }
         }
     }
     // thorough: the larger exhaustive sets
